@@ -137,3 +137,15 @@ pub open spec fn parse_dec_u64(b: Seq<u8>) -> Option<u64> {
 pub broadcast proof fn axiom_parse_u64(b: Seq<u8>)
     ensures #[trigger] parse_any::<u64>(b) == parse_dec_u64(b)
 {}
+
+/// link between vstd's view of a str (Seq<char>) and its UTF-8 bytes: empty iff empty
+#[verifier::external_body]
+pub broadcast proof fn axiom_str_bytes_empty(s: &str)
+    ensures (#[trigger] str_bytes(s)).len() == 0 <==> s@.len() == 0
+{}
+
+/// N9: `s.as_bytes()` in terms of this preamble's byte view of a str
+#[verifier::external_body]
+pub fn str_as_bytes<'a>(s: &'a str) -> (r: &'a [u8])
+    ensures r@ == str_bytes(s)
+{ s.as_bytes() }
